@@ -9,7 +9,7 @@ import (
 	"verif/checker/core"
 )
 
-// c38ICEServer (C38.R5): writer/reader agreement of ICEServer's hand-written JSON
+// c38OmissionDiscipline (C38.R6): writer/reader agreement of ICEServer's hand-written JSON
 // codec beyond key names.
 //
 //	(a) omission discipline: MarshalJSON may leave a key out only for the value
@@ -17,14 +17,11 @@ import (
 //	    `m[key] = s.F` store must therefore be a test of that same field F
 //	    against its type's zero value; any further condition omits a value
 //	    that then decodes to something else.
-//	(b) null acceptance: a field of nil-able type that is stored unconditionally
-//	    is encoded as JSON null when nil; the reader's conversion of that key
-//	    must accept a nil value (else the nil case does not round-trip).
-func c38ICEServer(c *Ctx, rule string) {
+//	(null acceptance for unconditionally stored nil-able fields is C38.R5, props/c38b.go)
+func c38OmissionDiscipline(c *Ctx, rule string) {
 	r := c.R
 	mar := c.mustFunc(rule, "", "ICEServer.MarshalJSON")
-	unm := c.mustFunc(rule, "", "ICEServer.iceserverUnmarshalFields")
-	if mar == nil || unm == nil {
+	if mar == nil {
 		return
 	}
 	g := c.P.GraphOf(mar)
@@ -126,97 +123,5 @@ func c38ICEServer(c *Ctx, rule string) {
 		r.Cells += guards
 		r.Check(bad == "", rule, key+"|omitted-only-for-decode-default", pos, sprintf("%d guard(s), each a zero test of the stored field", guards), bad)
 
-		// (b) unconditional + nil-able => reader must accept nil
-		if guards > 0 {
-			continue
-		}
-		switch st.field.Type().Underlying().(type) {
-		case *types.Slice, *types.Map, *types.Pointer:
-		default:
-			continue
-		}
-		c38NullAccept(c, rule, unm, st.key, st.field)
-	}
-}
-
-// c38NullAccept checks that the reader's conversion of fields[key] tolerates a nil value.
-func c38NullAccept(c *Ctx, rule string, unm *core.FuncInfo, key string, field *types.Var) {
-	r := c.R
-	info := unm.Pkg.TypesInfo
-	k := "ICEServer.iceserverUnmarshalFields|key:" + key + "|accepts-null"
-	// val, ok := fields["key"]
-	var val *types.Var
-	ast.Inspect(unm.Decl.Body, func(n ast.Node) bool {
-		as, ok := n.(*ast.AssignStmt)
-		if !ok || len(as.Rhs) != 1 || len(as.Lhs) < 1 {
-			return true
-		}
-		ix, ok := ast.Unparen(as.Rhs[0]).(*ast.IndexExpr)
-		if !ok {
-			return true
-		}
-		tv := info.Types[ix.Index]
-		if tv.Value != nil && tv.Value.Kind() == constant.String && constant.StringVal(tv.Value) == key {
-			val = core.VarOf(info, as.Lhs[0])
-		}
-		return true
-	})
-	if val == nil {
-		r.Fail(rule, k, c.P.Pos(unm.Decl.Pos()), "the reader never looks up key \""+key+"\" that the writer always emits")
-		return
-	}
-	// where does val go: helper(val) or val.(T)
-	checked := false
-	verdict := func(fi *core.FuncInfo, v *types.Var) {
-		inf := fi.Pkg.TypesInfo
-		nilTest, assertNoNil := false, false
-		var apos token.Pos
-		ast.Inspect(fi.Decl.Body, func(n ast.Node) bool {
-			switch x := n.(type) {
-			case *ast.BinaryExpr:
-				if x.Op == token.EQL || x.Op == token.NEQ {
-					if (core.VarOf(inf, x.X) == v && core.IsNilIdent(inf, x.Y)) || (core.VarOf(inf, x.Y) == v && core.IsNilIdent(inf, x.X)) {
-						nilTest = true
-					}
-				}
-			case *ast.TypeAssertExpr:
-				if core.VarOf(inf, x.X) == v && x.Type != nil {
-					if _, isIface := inf.TypeOf(x.Type).Underlying().(*types.Interface); !isIface {
-						assertNoNil = true
-						apos = x.Pos()
-					}
-				}
-			}
-			return true
-		})
-		if assertNoNil {
-			checked = true
-			r.Check(nilTest, rule, k, c.P.Pos(apos), "nil is tested before the concrete-type assertion",
-				"the writer emits JSON null for a nil "+field.Name()+" (stored unconditionally), but the reader asserts a concrete type on the decoded value without a nil case: an ICEServer with a nil "+field.Name()+" list does not survive its own JSON encoding")
-		}
-	}
-	verdict(unm, val)
-	ast.Inspect(unm.Decl.Body, func(n ast.Node) bool {
-		call, ok := n.(*ast.CallExpr)
-		if !ok {
-			return true
-		}
-		for i, a := range call.Args {
-			if core.VarOf(info, a) != val {
-				continue
-			}
-			if fn := core.Callee(info, call); fn != nil {
-				if fi := c.P.DeclOf(fn); fi != nil && fi.Decl.Body != nil {
-					sig := fn.Type().(*types.Signature)
-					if i < sig.Params().Len() {
-						verdict(fi, sig.Params().At(i))
-					}
-				}
-			}
-		}
-		return true
-	})
-	if !checked {
-		r.Info(rule, k, c.P.Pos(unm.Decl.Pos()), "decoded value is not narrowed by a concrete-type assertion")
 	}
 }
